@@ -75,10 +75,14 @@ def gen_seq(rng):
     return seq, collapsed
 
 
-def mk_tree(rng, plain=False):
+def mk_tree(rng, plain=False, paired=False):
     cfg = treegen.Cfg(n_max=10, p_punct=0.3, p_unary=0.2, labels=treegen.PLAIN_LABELS if plain or rng.random() < 0.7 else treegen.LABELS)
     if rng.random() < 0.1:
         cfg.p_punct = 0.9
+    if paired:
+        # dense paired punctuation: several quotes / brackets inside one phrase, phrases consisting of them only
+        cfg.p_punct = rng.choice([0.4, 0.6, 0.8])
+        cfg.punct_words = ["\"", "(", ")", "``", "''", "'", ",", "[", "]"]
     t = treegen.gen_tree(rng, cfg)
     t.data['sid'] = rng.randint(1, 99)
     tag_uids(t)
@@ -88,7 +92,7 @@ def mk_tree(rng, plain=False):
 def single(rng):
     prefix, call = single_cases(rng)
     plain = call[0] in ("collapse_unary_chains", "uncollapse_unary_chains")
-    t = mk_tree(rng, plain)
+    t = mk_tree(rng, plain, paired=(call[0] == "punctuation_symetrify" and rng.random() < 0.7))
     if call[0] == "uncollapse_unary_chains":
         # labels without '+', chain labels get joined by collapse
         pass
@@ -111,8 +115,8 @@ def single(rng):
 
 
 def sequence(rng):
-    t = mk_tree(rng, plain=True)
     seq, collapsed = gen_seq(rng)
+    t = mk_tree(rng, plain=True, paired=(any(c[0] == "punctuation_symetrify" for c in seq) and rng.random() < 0.6))
     if not seq:
         seq = [("root_attach", {})]
     src = tx.fresh(t, t.data['sid'])
